@@ -79,6 +79,9 @@ func main() {
 		if *goMode != "off" && rewriteGo(f, shimImport, *goMode == "all") {
 			changed = true
 		}
+		if rewriteProcs(f, shimImport) {
+			changed = true
+		}
 		if !changed {
 			return nil
 		}
@@ -155,6 +158,52 @@ func rewriteGo(f *ast.File, shimImport string, all bool) bool {
 		}
 	}
 	f.Decls = append(f.Decls[:at], append([]ast.Decl{decl}, f.Decls[at:]...)...)
+	f.Imports = append(f.Imports, spec)
+	return true
+}
+
+// rewriteProcs turns runtime.GOMAXPROCS(x) and runtime.NumCPU() into calls of the shim, so that the
+// harness decides what the library is told about the machine (under the schedule explorer the real
+// GOMAXPROCS is 1; code that splits work by the number of processors would never split there).
+func rewriteProcs(f *ast.File, shimImport string) bool {
+	rt := ""
+	for _, imp := range f.Imports {
+		if p, _ := strconv.Unquote(imp.Path.Value); p == "runtime" {
+			rt = "runtime"
+			if imp.Name != nil {
+				rt = imp.Name.Name
+			}
+		}
+	}
+	if rt == "" || rt == "_" || rt == "." {
+		return false
+	}
+	n := 0
+	ast.Inspect(f, func(node ast.Node) bool {
+		sel, ok := node.(*ast.SelectorExpr)
+		if !ok {
+			return true
+		}
+		if x, ok := sel.X.(*ast.Ident); ok && x.Name == rt && x.Obj == nil && (sel.Sel.Name == "GOMAXPROCS" || sel.Sel.Name == "NumCPU") {
+			x.Name = "verifprocs"
+			n++
+		}
+		return true
+	})
+	if n == 0 {
+		return false
+	}
+	spec := &ast.ImportSpec{Name: ast.NewIdent("verifprocs"), Path: &ast.BasicLit{Kind: token.STRING, Value: strconv.Quote(shimImport)}}
+	decl := &ast.GenDecl{Tok: token.IMPORT, Specs: []ast.Spec{spec}}
+	at := 0
+	for i, d := range f.Decls {
+		if gd, ok := d.(*ast.GenDecl); ok && gd.Tok == token.IMPORT {
+			at = i + 1
+		}
+	}
+	// keep the import of package runtime used even when these were its only uses
+	keep := &ast.GenDecl{Tok: token.VAR, Specs: []ast.Spec{&ast.ValueSpec{Names: []*ast.Ident{ast.NewIdent("_")}, Values: []ast.Expr{&ast.SelectorExpr{X: ast.NewIdent(rt), Sel: ast.NewIdent("Version")}}}}}
+	f.Decls = append(f.Decls[:at], append([]ast.Decl{decl, keep}, f.Decls[at:]...)...)
 	f.Imports = append(f.Imports, spec)
 	return true
 }
